@@ -109,11 +109,12 @@ def compare(m, ref, what='monitor'):
         if n != len(ref):
             out.append(('len', 'len(%s) = %d, %d records expected' % (what, n, len(ref))))
         gx, gy, gi = m.x, m.y, m.id
-        if canon(gx) != canon(ref.x):
+        rk = ref.key()
+        if canon(gx) != tuple([r[0] for r in rk]):
             out.append(('x', '%s.x = %r, recorded %r' % (what, gx, ref.x)))
-        if canon(gy) != canon(ref.y):
+        if canon(gy) != tuple([r[1] for r in rk]):
             out.append(('y', '%s.y = %r, recorded %r (k=%r, _y=%r)' % (what, gy, ref.y, m.k, m._y)))
-        if list(gi) != ref.id:
+        if list(gi) != [r[2] for r in rk]:
             out.append(('id', '%s.id = %r, recorded %r' % (what, gi, ref.id)))
     except Exception as e:
         out.append(('raised', 'reading %s raised %s: %s' % (what, type(e).__name__, e)))
@@ -202,7 +203,7 @@ def run_records(specs, k, T=None, alias=True):
 
 
 def shard_records(item):
-    _, histories, ks = item
+    histories, ks = item[1], item[2]
     T = Tally()
     for specs in histories:
         for k in ks:
@@ -212,10 +213,12 @@ def shard_records(item):
             T.hist('R_len', len(specs))
             for clause, text in msgs:
                 T.violate({'part': 'record', 'clause': clause, 'k': kname(k),
-                           'xkinds': sorted(set(s[0] for s in specs)), 'ykinds': sorted(set(s[3] for s in specs))},
+                           'cost': 'scalar' if all(s[3] not in ('list', 'ndarray', 'tuple', 'vecspecial') for s in specs)
+                           else 'vector'},
                           {'part': 'R', 'specs': specs, 'k': k},
                           '%s [k=%r records=%r]' % (text, k, specs))
-    T.sample({'part': 'R', 'specs': histories[0], 'k': ks[-1]})
+    if item[-1] is True:
+        T.sample({'part': 'R', 'specs': histories[-1], 'k': ks[-1]})
     return T
 
 
@@ -242,9 +245,11 @@ def seq_alphabet(name):
             ops.append(('rec', t, r))
     for t in 'AB':
         if wide:
-            for a, b in ((1, None), (None, -1), (0, 1), (1, 3)):
+            for a, b in ((1, None), (None, -1)):
                 ops.append(('slice', t, a, b, t))           # t = t[a:b]
                 ops.append(('slice', t, a, b, OTHER[t]))    # other = t[a:b]; t stays alive
+            ops.append(('slice', t, 0, 1, t))
+            ops.append(('slice', t, 1, 3, OTHER[t]))
         else:
             ops.append(('slice', t, 1, None, t))
             ops.append(('slice', t, None, -1, OTHER[t]))
@@ -283,7 +288,8 @@ def _seq_record(r, pos):
     key = (r, pos)
     if key not in _REC_CACHE:
         x, y, i = build(SEQ_RECORDS[r], pos)
-        _REC_CACHE[key] = (x, y, i, plain(x), plain(y))
+        px, py = plain(x), plain(y)
+        _REC_CACHE[key] = (x, y, i, px, py, (canon(px), canon(py), i))
     return _REC_CACHE[key]
 
 
@@ -314,12 +320,12 @@ class SeqState(object):
                             # either in `readonly` (shown unchanged) or a result compared on the spot
         try:
             if kind == 'rec':
-                x, y, i, px, py = _seq_record(op[2], self.nrec)
+                x, y, i, px, py, ck = _seq_record(op[2], self.nrec)
                 self.nrec += 1
                 if judge:
                     readonly[o] = deep(real[o])
                 real[t](x, y, i)
-                ref[t].record_plain(px, py, i)
+                ref[t].record_plain(px, py, i, ck)
                 nontrivial = True
                 changed = t
             elif kind == 'slice':
@@ -422,6 +428,7 @@ def run_sequence(ka, kb, ops, judge_from=0, T=None):
     found = []
     for n, op in enumerate(ops):
         judge = n >= judge_from
+        before = st.key() if (judge and T is not None) else None
         try:
             msgs, label, nontrivial, dead = st.apply(op, judge)
         except _Abort:
@@ -432,7 +439,7 @@ def run_sequence(ka, kb, ops, judge_from=0, T=None):
                 T.hist('S_outcome', label)
                 T.state(('S', ka, kb, st.key()))
                 if nontrivial:
-                    T.nontriv(('S', ka, kb, tuple(ops[:n + 1])))
+                    T.nontriv(('S', ka, kb, before, op))
             for clause, text in msgs:
                 found.append((n, op, clause, text))
         if dead:
@@ -441,9 +448,10 @@ def run_sequence(ka, kb, ops, judge_from=0, T=None):
 
 
 def shard_sequences(item):
-    _, ka, kb, aname, depth, prefix = item
+    ka, kb, aname, depth, prefix = item[1:6]
     alphabet = seq_alphabet(aname)
     T = Tally()
+    found = []
     free = depth - len(prefix)
     for tail in itertools.product(range(len(alphabet)), repeat=free):
         path = tuple(prefix) + tail
@@ -453,11 +461,18 @@ def shard_sequences(item):
         ops = [alphabet[i] for i in path]
         T.count('traces')
         T.count('transitions', depth)
-        for n, op, clause, text in run_sequence(ka, kb, ops, jf, T):
-            T.violate({'part': 'sequence', 'clause': clause, 'op': op[0], 'kA': kname(ka), 'kB': kname(kb)},
-                      {'part': 'S', 'kA': ka, 'kB': kb, 'ops': [list(o) for o in ops[:n + 1]]},
-                      '%s [kA=%r kB=%r ops=%s]' % (text, ka, kb, [list(o) for o in ops[:n + 1]]))
-    if not any(prefix):
+        res = run_sequence(ka, kb, ops, jf, T)
+        for n, op, clause, text in res:
+            found.append((n, op, clause, text, ops))
+        if any('MemoryError' in f[3] for f in res):
+            T.count('shards_aborted_after_MemoryError')     # reported as a violation; the rest of this shard is skipped
+            break
+    found.sort(key=lambda f: f[0])          # shortest failing history first: it becomes the replay of its signature
+    for n, op, clause, text, ops in found:
+        T.violate({'part': 'sequence', 'clause': clause, 'op': op[0], 'kA': kname(ka), 'kB': kname(kb)},
+                  {'part': 'S', 'kA': ka, 'kB': kb, 'ops': [list(o) for o in ops[:n + 1]]},
+                  '%s [kA=%r kB=%r ops=%s]' % (text, ka, kb, [list(o) for o in ops[:n + 1]]))
+    if item[-1] is True:
         T.sample({'part': 'S', 'kA': ka, 'kB': kb, 'alphabet': aname,
                   'ops': [list(alphabet[i]) for i in (0, 14, 18, 6)[:depth]]})
     return T
@@ -541,7 +556,7 @@ def run_log(specs, k, interval, all_, tmpdir, name):
 
 
 def shard_logs(item):
-    _, histories, configs = item
+    histories, configs = item[1], item[2]
     T = Tally()
     tmp = tempfile.mkdtemp(prefix='c20L_')
     try:
@@ -563,7 +578,8 @@ def shard_logs(item):
                               '%s [interval=%r all=%r k=%r records=%r]' % (text, interval, all_, k, specs))
     finally:
         shutil.rmtree(tmp, ignore_errors=True)
-    T.sample({'part': 'L', 'specs': histories[-1], 'config(k,interval,all)': configs[-1]})
+    if item[-1] is True:
+        T.sample({'part': 'L', 'specs': histories[-1], 'config(k,interval,all)': configs[-1]})
     return T
 
 
@@ -619,7 +635,26 @@ def run_files(specs, k, tmpdir, writers=WRITERS, T=None):
     eids = rm.iterations_per_id(ref.id)
     ecost = ref.y
     c = rm.cube(ref.x)
+    # the monitor itself is a source for read_history (no file involved)
+    if T is not None or 'monitor' in writers:
+        try:
+            ids, params, cost = munge.read_history(m, iter=True)
+            if not _ids_ok(ids, eids):
+                found.append(('monitor', 'read_history', 'file_iterations',
+                              'read_history(monitor, iter=True) returned iterations %r, expected %r (ids recorded %r)' % (ids, eids, ref.id)))
+            if canon(params) != canon(rm.permute(c, 'itj')):
+                found.append(('monitor', 'read_history', 'file_params',
+                              'read_history(monitor) returned params %r, expected the support layout %r of %r' % (params, rm.permute(c, 'itj'), ref.x)))
+            if canon(cost) != canon(ecost):
+                found.append(('monitor', 'read_history', 'file_cost', 'read_history(monitor) returned cost %r, recorded %r (k=%r)' % (cost, ecost, k)))
+        except Exception as e:
+            found.append(('monitor', 'read_history', 'read_raised_%s' % type(e).__name__,
+                          'read_history(monitor, iter=True) raised %s: %s (monitor.y = %r)' % (type(e).__name__, e, m.y)))
+        if deep(m) != before:
+            found.append(('monitor', 'read_history', 'reader_changed_monitor', 'read_history(monitor) changed the monitor'))
     for w in writers:
+        if w == 'monitor':
+            continue
         mod = _modname(w)
         fn = os.path.join(tmpdir, mod + '.py')
         try:
@@ -723,15 +758,17 @@ def run_rewrite(specs1, specs2, k, writer, reader, tmpdir):
             except Exception as e:
                 return [('rewrite_' + _classify(e), '%s raised %s: %s' % (reader, type(e).__name__, e))]
             got.append((canon(params), canon(cost)))
+            shown = (params, cost)
         want = [(canon(_expected_params(ref, writer)), canon(ref.y)) for m, ref in mons]
         if got[0] != want[0]:
             return []                       # the plain round trip is judged (and reported) by run_files
         if got[1] != want[1]:
             if got[1] == want[0] and want[0] != want[1]:
                 out.append(('stale_reread', '%s after write_%s_file overwrote %s returned the *previous* contents %r; the file now holds %r'
-                            % (reader, writer, os.path.basename(fn), got[1], open(fn).read()[-200:])))
+                            % (reader, writer, os.path.basename(fn), shown, open(fn).read()[-200:])))
             else:
-                out.append(('reread', '%s after overwriting returned %r, expected %r' % (reader, got[1], want[1])))
+                out.append(('reread', '%s after overwriting returned %r, expected params %r cost %r'
+                            % (reader, shown, _expected_params(mons[1][1], writer), mons[1][1].y)))
         return out
     finally:
         _forget(mod)
@@ -740,7 +777,7 @@ def run_rewrite(specs1, specs2, k, writer, reader, tmpdir):
 
 
 def shard_files(item):
-    _, histories, ks = item
+    histories, ks = item[1], item[2]
     T = Tally()
     tmp = tempfile.mkdtemp(prefix='c20F_')
     try:
@@ -761,7 +798,8 @@ def shard_files(item):
                               '%s [k=%r records=%r]' % (text, k, specs))
     finally:
         shutil.rmtree(tmp, ignore_errors=True)
-    T.sample({'part': 'F', 'specs': histories[-1], 'k': ks[-1]})
+    if item[-1] is True:
+        T.sample({'part': 'F', 'specs': histories[-1], 'k': ks[-1]})
     return T
 
 
@@ -836,14 +874,16 @@ def plan(thorough):
     bounds['S'] = {'k_pairs(unordered; alphabets are symmetric under A<->B)': kpairs,
                    'base_alphabet': [list(o) for o in seq_alphabet('base')], 'base_depth': sdepth['base'],
                    'wide_alphabet': [list(o) for o in seq_alphabet('wide')], 'wide_depth': sdepth['wide'],
-                   'records': SEQ_RECORDS}
+                   'records': SEQ_RECORDS,
+                   'prefixes_to_judge(=histories_judged when no operation raises)':
+                       sum(len(kpairs) * len(seq_alphabet(a)) ** d for a in ('base', 'wide') for d in range(1, sdepth[a] + 1))}
     # ---- F
     fh = [[]] + _singles(allx, DIMS, yall, IDS)
     if thorough:
         fh += _pairs(XKINDS, yall, IDS) + _pairs(POPKINDS, yall, IDS)
         fh += _words(LONG, (3,))
     else:
-        fh += _pairs(['list', 'ndarray'], ['float', 'npfloat', 'list', 'ndarray', 'nan', 'big'], IDS)
+        fh += _pairs(['list', 'ndarray'], ['float', 'npfloat', 'ndarray', 'nan'], IDS)
         fh += _pairs(['poplist'], ['float', 'list', 'ndarray'], [None, 7])
         fh += _words(LONG[:4], (3,))
     for ch in _chunks(fh, 40):
@@ -859,7 +899,7 @@ def plan(thorough):
         lh += _pairs(XKINDS, yall, IDS) + _pairs(POPKINDS, yall, IDS)
         lh += _words(LONG, (3, 4, 5))
     else:
-        lh += _pairs(['list', 'ndarray', 'npscalars'], YKINDS, IDS) + _pairs(['poplist'], YKINDS, IDS)
+        lh += _pairs(['list', 'ndarray'], YKINDS, IDS) + _pairs(['poplist'], YKINDS, IDS)
         lh += _words(LONG, (3, 4))
     for ch in _chunks(lh, 60):
         items.append(('L', ch, configs))
@@ -871,28 +911,51 @@ def plan(thorough):
     for ch in _chunks(rh, 1500):
         items.append(('R', ch, KS))
     bounds['R'] = {'histories': len(rh), 'k': KS}
+    seen = set()
+    for n, it in enumerate(items):
+        items[n] = tuple(it) + (it[0] not in seen,)
+        seen.add(it[0])
     bounds['values'] = {'x_kinds': allx, 'dims': DIMS, 'x_patterns': [[repr(v) for v in p] for p in XPAT],
                         'y_kinds': yall, 'ids': IDS}
     return items, bounds
 
 
+MEM_CAP = 1536 << 20      # bytes of heap a shard may use: a monitor operation that does not
+                          # terminate (e.g. extending a list while iterating over it) ends in a
+                          # MemoryError, which is judged like any other exception
+
+
 def _dispatch(item):
-    import time
+    import time, resource
     t0 = time.process_time()
-    T = {'S': shard_sequences, 'F': shard_files, 'W': shard_rewrite, 'L': shard_logs, 'R': shard_records}[item[0]](item)
+    soft, hard = resource.getrlimit(resource.RLIMIT_DATA)
+    try:
+        resource.setrlimit(resource.RLIMIT_DATA, (MEM_CAP if hard == resource.RLIM_INFINITY else min(MEM_CAP, hard), hard))
+    except (ValueError, OSError):
+        pass
+    try:
+        T = {'S': shard_sequences, 'F': shard_files, 'W': shard_rewrite, 'L': shard_logs, 'R': shard_records}[item[0]](item)
+    finally:
+        resource.setrlimit(resource.RLIMIT_DATA, (soft, hard))
     T.count('cpu_ms_part_%s' % item[0], int(1000 * (time.process_time() - t0)))
     return T
 
 
 def run(ctx):
     items, bounds = plan(ctx.thorough)
+    only = os.environ.get('VERIF_C20_PARTS')       # developer aid, e.g. VERIF_C20_PARTS=L,F
+    if only:
+        keep = set(only.replace(',', ' ').split())
+        items = [it for it in items if it[0] in keep]
+        bounds = dict((k, v) for k, v in bounds.items() if k in keep or k == 'values')
+        ctx.cap('VERIF_C20_PARTS=%s: only these parts were run' % only)
     ctx.bounds = bounds
     ctx.rule = ("R: every history of the stated record alphabet (all single records, all ordered pairs, words over a 6-8 record "
                 "alphabet) x every k, compared with the list-of-tuples reference after every call; "
                 "S: every operation sequence of exactly the stated depth (hence every shorter one as a prefix) over the stated "
                 "alphabet for every unordered pair {kA,kB}; every prefix is judged exactly once (by the lexicographically first "
-                "path below it), non-trivial = the judged operation recorded something, combined with a non-empty operand or "
-                "returned a non-empty result; L/F: every history x every configuration is written and read back by every reader, "
+                "path below it), non-trivial = distinct (kA, kB, canonical state of both monitors before, operation) where the "
+                "operation recorded something, combined with a non-empty operand or returned a non-empty result; L/F: every history x every configuration is written and read back by every reader, "
                 "non-trivial = at least one record. states = distinct canonical reference states / read-back outcomes.")
     ctx.assumptions = [
         "k restricted to None, 1, 2, -1 (scaling by a power of two is exact, so 'transparent' means bit-equal)",
@@ -904,6 +967,9 @@ def run(ctx):
         "every param file gets a module name of its own and importlib.invalidate_caches() is called before a fresh read (Python's documented duty of whoever creates modules at run time); the history that overwrites one file name is judged separately (part W)",
     ]
     ctx.pmap(_dispatch, items)
+    if ctx.tally.n.get('shards_aborted_after_MemoryError'):
+        ctx.cap('%d sequence shard(s) stopped at an operation that exhausted memory (reported as a violation)'
+                % ctx.tally.n['shards_aborted_after_MemoryError'])
 
 
 def replay(case):
